@@ -1,13 +1,16 @@
 import G3D.Proofs.TolGeoBase
-import G3D.Extracted.Kernels
-import G3D.Extracted.Kernelsr
-import G3D.Proofs.KernelsTieReal
+import G3D.Extracted.Kvec
+import G3D.Extracted.Kvecr
+import G3D.Extracted.Kmember
+import G3D.Extracted.Kmemberr
+import G3D.Proofs.KTieKvecPar
+import G3D.Proofs.KTieKmemberr
 import Mathlib.Tactic.NormNum
 
 /-! # The hand-written tolerance model IS the extracted comparison on the extracted operands
 
-    `G3D/Model/TolGeo.lean` mirrors the Python formulas by hand.  `G3D/Extracted/Kernels.lean` (ℚ) and
-    `G3D/Extracted/Kernelsr.lean` (ℝ, with √) are regenerated from the running code: every tolerance comparison is
+    `G3D/Model/TolGeo.lean` mirrors the Python formulas by hand.  `G3D/Extracted/Kvec.lean`, `Kmember.lean` (ℚ) and
+    `G3D/Extracted/Kvecr.lean`, `Kmemberr.lean` (ℝ, with √) are regenerated from the running code: every tolerance comparison is
     recorded as an operand term (`impl_*_residual`, `_scale`, `_rel`, `_startDist`, `_proj`) and a shape string
     (`impl_*_shape`, or the entries of `impl_*_path` in the order in which the code asks them).
 
@@ -180,7 +183,7 @@ theorem isZero_tie_other (eps : ℝ) (a b : R3) :
 theorem parallel_operands (a b : R3) :
     impl_parallel_residual a.toRVec b.toRVec = |dot a b| - len a * len b ∧
     impl_parallel_scale a.toRVec b.toRVec = len a := by
-  obtain ⟨h1, h2⟩ := G3D.KernelsTieReal.parallel_tie a.toRVec b.toRVec
+  obtain ⟨h1, h2⟩ := G3D.KTie.Kvec.parallel_tie a.toRVec b.toRVec
   constructor
   · rw [h1]; rfl
   · rw [h2]; rfl
@@ -233,7 +236,7 @@ theorem lineContains_operands (l : Line) (x : R3) :
     impl_lineContains_residual l.sv.toRVec l.dv.toRVec x.toRVec
       = |dot (sub x l.sv) l.dv| - len (sub x l.sv) * len l.dv ∧
     impl_lineContains_scale l.sv.toRVec l.dv.toRVec x.toRVec = len (sub x l.sv) := by
-  obtain ⟨h1, h2⟩ := G3D.KernelsTieReal.lineContains_tie l.sv.toRVec l.dv.toRVec x.toRVec
+  obtain ⟨h1, h2⟩ := G3D.KTie.Kmember.lineContains_tie l.sv.toRVec l.dv.toRVec x.toRVec
   rw [h1, h2, ← toRVec_sub]
   exact parallel_operands (sub x l.sv) l.dv
 
